@@ -137,6 +137,28 @@ def _harvest(r, s, tier):
     return texts
 
 
+import re as _re
+
+
+def _key_texts(el):
+    """the key texts of '{k1: v1, k2: v2}' (split at depth 0)"""
+    body = el.strip()[1:-1]
+    parts, depth, cur = [], 0, ""
+    for ch in body:
+        if ch in "([{":
+            depth += 1
+        elif ch in ")]}":
+            depth -= 1
+        if ch == "," and depth == 0:
+            parts.append(cur)
+            cur = ""
+        else:
+            cur += ch
+    if cur.strip():
+        parts.append(cur)
+    return [p.split(":", 1)[0] for p in parts]
+
+
 def _roundtrip(r, s, tier):
     import numpy as np
     texts = _harvest(r, s, tier)
@@ -156,6 +178,10 @@ def _roundtrip(r, s, tier):
         for m in made:
             if "zoo" not in m:
                 texts.setdefault(m, ("constructed", 0))
+    # the pairwise combination step records {expression in two parameters: parameter} when told to keep the map (simplifier.py:372-390)
+    for a, b in ((al[0], al[1]), (al[1], al[2])):
+        for key, val in ((a + b, b), (a - b, b), (a * b, b), (a / b, a), (b * sympy.Abs(a), b), (sympy.Abs(a) ** b, sympy.Abs(b)), (a ** b, b)):
+            texts.setdefault(str({key: val}), ("constructed", 0))
     import itertools
     for perm in itertools.permutations(range(3)):
         d = {al[i]: al[perm[i]] for i in range(3) if i != perm[i]}
@@ -192,16 +218,30 @@ def _roundtrip(r, s, tier):
             got = loaded[mode]
             cases.append({"id": len(cases), "kind": "file", "written": len(rows), "loaded": len(got), "P": P, "mode": mode})
             forms = loaded.get(mode + "_form", [])
+            ksyms = loaded.get(mode + "_keysyms", [])
             for i, (w, g) in enumerate(zip(rows, got)):
                 want_form = "dict" if mode == "sympy" else "str"
                 flags = {"sameLen": len(w) == len(g), "nanKept": True, "keysEqual": True, "valuesEqual": True,
                          "formOK": i < len(forms) and all(f in ("nan", want_form) for f in forms[i])}
+                # the keys of a loaded dictionary are expressions in the parameters the text names (e.g. {a0 + a1: a1}): same symbols per key
+                if mode == "sympy" and i < len(ksyms):
+                    for we, ks in zip(w, ksyms[i]):
+                        if ks is None or we.strip() == "nan":
+                            continue
+                        want = [sorted(set(_re.findall(r"a\d+", kt))) for kt in _key_texts(we)]
+                        if sorted(map(tuple, want)) != sorted(map(tuple, ks)):
+                            flags["keysEqual"] = False
                 for we, ge in zip(w, g):
                     if we.strip() == "nan" or ge == "nan":
                         flags["nanKept"] &= (we.strip() == "nan" and ge == "nan")
                         continue
-                    ws = libproj.parse_sub(we)
-                    gs = libproj.parse_sub(ge) if isinstance(ge, str) else [(int(k[1:]), v) for k, v in ge.items()]
+                    try:
+                        ws = libproj.parse_sub(we)
+                        gs = libproj.parse_sub(ge) if isinstance(ge, str) else [(int(k[1:]), v) for k, v in ge.items()]
+                    except Exception:
+                        continue          # a key that is not a single parameter: judged through its symbols (above) and its form only
+                    if ws is None or gs is None:
+                        continue
                     if [k for k, _ in ws] != [k for k, _ in gs]:
                         flags["keysEqual"] = False
                         continue
